@@ -225,6 +225,9 @@ func main() {
 		idx := 0
 		kinds := []int{wire.Failure, wire.Garbage, wire.WrongType, wire.Oversized, wire.Truncated, wire.Close}
 		for _, sh := range shapes {
+			if hungOnce {
+				break
+			}
 			// pilot
 			ag, tr, signer, closeFn, err := build(e, sh)
 			if err != nil {
@@ -246,7 +249,10 @@ func main() {
 			closeFn()
 			if !pilotOK {
 				if esc != "" {
-					r.Violation(r.CaseAlways("pilot", idx), "panic-escapes-run:fault-free", esc, sh)
+					r.Violation(r.CaseAlways("pilot", idx), gsrig.EscapeSig(esc)+":fault-free", esc, sh)
+					if esc == gsrig.Hung {
+						hungOnce = true
+					}
 				} else {
 					r.Inconclusive(fmt.Sprintf("the fault-free pilot run of shape %+v did not succeed (err=%v): no fault enumeration possible for it", sh, perr))
 				}
